@@ -1,8 +1,9 @@
 /-
 Oracle for the real-handshake cases of C04 (layer 2).
 
-case     : op=hs stack suite auth resume nc ns pmtu seed
-           master smaster pre c2s s2c sentc sents        (captured by the driver)
+case     : op=hs stack suite auth resume nc ns pmtu seed rshort msz
+           master smaster pre c2s s2c sentc sents crng srng   (captured by the driver; crng/srng =
+           everything each side's Config.Rand handed out when rshort > 0)
 observed : ok=1 resumed=<0|1> cfin=<12 bytes> sfin=<12 bytes>     (what the client Conn stored)
 
 From the captured wire bytes alone the oracle splits records, reassembles the handshake
@@ -199,9 +200,30 @@ def explainKeys (st : Stack) (sp : SuiteParams) (master crnd srnd : Bytes) (r : 
     | some (why, _) => "; " ++ why
     | none => ""
 
+/-- find `needle` in `hay` scanning forward; the rest of `hay` after the match -/
+def consume (needle : Bytes) : Nat → Bytes → Option Bytes
+  | 0, _ => none
+  | fuel+1, hay =>
+    if hay.isEmpty then none
+    else if needle.isPrefixOf hay then some (hay.drop needle.length)
+    else consume needle fuel hay.tail
+
+/-- every explicit CBC IV of a direction, in wire order, is a run of bytes the sender's random
+source produced, at increasing positions (the driver recorded everything the source handed out) -/
+def ivsFromRng (who : String) (rng : Bytes) : List Bytes → Except Fail Unit
+  | [] => .ok ()
+  | iv :: rest =>
+    match consume iv (rng.length + 1) rng with
+    | none => .error ("iv-not-rng", s!"{who} explicit IV {hex iv} is not a run of bytes its random source produced (stale or predictable IV)")
+    | some rng' => ivsFromRng who rng' rest
+
 def flat (ms : List Msg) : Bytes := ms.foldl (fun acc m => acc ++ m.full) []
 
 structure Derived where
+  sp : SuiteParams
+  /-- client write keys and the client's protected records with their expected sequence numbers -/
+  ckeys : DirKeys
+  cprot : List (Nat × WireRec)
   resumed : Bool
   cfinSpec : Bytes
   sfinSpec : Bytes
@@ -209,7 +231,7 @@ structure Derived where
   sfinModel : Bytes
 
 /-- the whole check; `.error` is a property failure -/
-def check (mst : MStack) (st : Stack) (suiteId : Nat) (master smaster pre c2s s2c sentc sents : Bytes)
+def check (mst : MStack) (st : Stack) (suiteId : Nat) (master smaster pre c2s s2c sentc sents crng srng : Bytes)
     (obsC obsS : Option Bytes) : Except Fail (Derived × Option Fail) := do
   let S := Model.KeySchedule.srcOf mst
   let cr ← splitRecords st (c2s.length + 1) c2s []
@@ -254,6 +276,14 @@ def check (mst : MStack) (st : Stack) (suiteId : Nat) (master smaster pre c2s s2
     | .ok o => pure o
     | .error (t, why) => throw (t, why ++ (if t == "record-open" then explainKeys st sp master chello.random shello.random .server sv.prot.head? else ""))
   -- (a DTLCP flight may be retransmitted: identical copies of the Finished are one message)
+  if sp.mode == .cbc && !crng.isEmpty then
+    match ivsFromRng "client->server" crng co.explicit.reverse with
+    | .error f => throw f
+    | .ok _ => pure ()
+  if sp.mode == .cbc && !srng.isEmpty then
+    match ivsFromRng "server->client" srng so.explicit.reverse with
+    | .error f => throw f
+    | .ok _ => pure ()
   let cfinMsg ← match co.hs with
     | m :: rest =>
       if !rest.all (fun (x : Msg) => x.full == m.full) then throw ("hs-shape", s!"client sent {rest.length + 1} different protected handshake messages, expected one Finished")
@@ -289,7 +319,7 @@ def check (mst : MStack) (st : Stack) (suiteId : Nat) (master smaster pre c2s s2
     else if st == .dtlcp && sfinMsg.mseq != startS then
       some ("msgseq", s!"server Finished carries message_seq {sfinMsg.mseq}; its {startS} earlier messages were numbered 0..{startS - 1}")
     else none
-  pure (⟨resumed, cfinSpec, sfinSpec,
+  pure (⟨sp, writeKeys kb .client, cv.prot, resumed, cfinSpec, sfinSpec,
     Model.KeySchedule.clientSum sm S master trC, Model.KeySchedule.serverSum sm S master trS⟩, soft)
 
 def judgeHS (ct ot : List String) : Option Verdict := do
@@ -303,10 +333,12 @@ def judgeHS (ct ot : List String) : Option Verdict := do
     let pre ← kvHex ct "pre"
     let sentc ← kvHex ct "sentc"
     let sents ← kvHex ct "sents"
-    match check mst st suiteId master smaster pre c2s s2c sentc sents (kvHex ot "cfin") (kvHex ot "sfin") with
+    let crng := (kvHex ct "crng").getD []
+    let srng := (kvHex ct "srng").getD []
+    match check mst st suiteId master smaster pre c2s s2c sentc sents crng srng (kvHex ot "cfin") (kvHex ot "sfin") with
     | .ok (d, soft) =>
       let b (x : Bool) := if x then 1 else 0
-      let note := s!"{if d.resumed then "resumed" else "full"}{if pre.isEmpty then "" else "+premaster"}"
+      let note := s!"{if d.resumed then "resumed" else "full"}{if pre.isEmpty then "" else "+premaster"}{if crng.isEmpty then "" else "+shortrng"}"
       let spec := if d.resumed != (resume == 1) then some ("hs-shape", s!"resume={resume} requested but the wire shows resumed={b d.resumed}") else soft
       pure { model := s!"ok=1 resumed={b d.resumed} cfin={hex d.cfinModel} sfin={hex d.sfinModel}", spec := spec, note := note }
     | .error f =>
@@ -315,9 +347,92 @@ def judgeHS (ct ot : List String) : Option Verdict := do
     -- the handshake did not complete: nothing was captured
     pure { model := s!"ok=1 resumed={resume} cfin=? sfin=?", spec := some ("incomplete", "an honest handshake did not complete") }
 
+/-! ### layer 3: what the real receive paths accept (op=rx) -/
+
+def hexList (l : List Bytes) : String := if l.isEmpty then "-" else ",".intercalate (l.map hex)
+
+/-- case: the hs capture tokens plus `t` (the record put in front of the receiver: a genuine
+record with one header field rewritten, or untouched), `brec` (the genuine record held back),
+`b c d` (payloads).  observed: `got=<payloads in delivery order> end=d|timeout|err`. -/
+def judgeRX (ct ot : List String) : Option Verdict := do
+  let (mst, st) ← (kv ct "stack").bind parseStack
+  let suiteId ← kvNat ct "suite"
+  match kvHex ct "c2s", kvHex ct "s2c" with
+  | some c2s, some s2c =>
+    let master ← kvHex ct "master"
+    let smaster ← kvHex ct "smaster"
+    let sentc ← kvHex ct "sentc"
+    let t ← kvHex ct "t"
+    let brec ← kvHex ct "brec"
+    let b ← kvHex ct "b"
+    let c ← kvHex ct "c"
+    let d ← kvHex ct "d"
+    match check mst st suiteId master smaster [] c2s s2c sentc [] [] [] none none with
+    | .error f => pure { model := "got=? end=?", spec := some f }
+    | .ok (dv, _) =>
+      let S := Model.KeySchedule.srcOf mst
+      -- position of the held-back record among the client's protected records = its implicit seq (tlcp)
+      let pos := ((dv.cprot.find? (fun x => x.2.raw == brec)).map (·.1)).getD 0
+      let bp := (parse st brec).map (·.1)
+      -- the standard's verdict on `t`
+      let specOpen : Option Bytes :=
+        match parse st t with
+        | some (p, []) =>
+          let seq := match st with | .tlcp => pos | .dtlcp => p.seq
+          if p.ver != 0x0101 then none else
+          match openBody sm dv.sp.mode dv.ckeys st p.typ p.ver p.epoch seq p.body with
+          | .ok x => some x
+          | .error _ => none
+        | _ => none
+      -- the model's verdict: the transcription of `decrypt`, fed as the receive path feeds it
+      let ciph : Model.KeySchedule.Cipher :=
+        match dv.sp.mode with
+        | .gcm => .aead ⟨[], dv.ckeys.key, dv.ckeys.iv⟩
+        | .cbc => .cbc ⟨dv.ckeys.mac, dv.ckeys.key, dv.ckeys.iv⟩
+      let hseq : Bytes := match st with | .tlcp => be 8 pos | .dtlcp => (t.drop 3).take 8
+      let hl := headerLen st
+      let wellFramed := t.length ≥ hl && fromBE ((t.drop (hl - 2)).take 2) + hl == t.length && (t.drop 1).take 2 == be 2 0x0101
+      let modelOpen : Option Bytes :=
+        if !wellFramed then none else
+        match Model.KeySchedule.decrypt sm S mst ⟨some ciph, none, hseq⟩ t with
+        | .ok (x, _) => some x
+        | _ => none
+      let slot : Bool :=
+        match bp, (parse st t).map (·.1) with
+        | some x, some y => x.epoch == y.epoch && x.seq == y.seq
+        | _, _ => false
+      let lateB : List Bytes := cond slot [] [b]
+      let expect (o : Option Bytes) : List Bytes × String :=
+        match st, o with
+        | .tlcp, some x => ([x, c, d], "d")
+        | .tlcp, none => ([], "err")             -- a forged record is fatal on a stream
+        | .dtlcp, some x => ([x, c] ++ lateB ++ [d], "d")
+        | .dtlcp, none => ([c, b, d], "d")       -- dropped silently; nothing else changes
+      let (mg, me) := expect modelOpen
+      let (sg, se) := expect specOpen
+      let og := (kv ot "got").getD "?"
+      let oe := (kv ot "end").getD "?"
+      let spec : Option (String × String) :=
+        if og == hexList sg && oe == se then none
+        else
+          let field := (kv ct "field").getD "?"
+          let path := (kv ct "path").getD "?"
+          let delivered := if og == "-" then [] else og.splitOn ","
+          -- the rewritten record is a copy of the held-back B (or of an older record): its content
+          -- coming out first, or anything not sent at all, means the forgery was accepted
+          if specOpen.isNone && (delivered.any (fun x => !(sg.map hex).contains x) || (st == .dtlcp && delivered.head? == some (hex b))) then
+            some ("rx-accept", s!"{path}: a record whose header field '{field}' was rewritten does not authenticate under the standard but its content was delivered")
+          else if specOpen.isNone then
+            some ("rx-state", s!"{path}: after a rejected record with rewritten '{field}' the genuine records were not all delivered (got {delivered.length} of {sg.length}, end={oe}): the forgery changed receiver state")
+          else some ("rx-lost", s!"{path}: genuine records were not delivered as sent (end={oe})")
+      pure { model := s!"got={hexList mg} end={me}", spec := spec, note := if specOpen.isSome then "rx-authentic" else "rx-forged" }
+  | _, _ => pure { model := "got=? end=?", spec := some ("incomplete", "the connection for the receive-path test could not be set up") }
+
 def judge (c o : String) : Option Verdict :=
   let ct := tokens c
   let ot := tokens o
-  if kv ct "op" == some "hs" then judgeHS ct ot else judgePrim ct ot
+  if kv ct "op" == some "hs" then judgeHS ct ot
+  else if kv ct "op" == some "rx" then judgeRX ct ot
+  else judgePrim ct ot
 
 end Gotlcp.Oracle.C04HS
